@@ -23,7 +23,8 @@ func (k msgServer) Cancel(goCtx context.Context, msg *types.MsgCancel) (*types.M
 	isCreator := false
 	if order.Creator == msg.Creator {
 		isCreator = true
-	} else {
+	} else if msg.Provider == order.Provider {
+		// only the gateway named in the order can vouch for the order creator's address
 		node, found := k.node.GetNode(ctx, msg.Provider)
 		if found {
 			for _, address := range node.TxAddresses {
